@@ -45,6 +45,10 @@ pub fn decode<B: Buf>(size: u8, buf: &mut B) -> Result<Vec<u8>, Error> {
     if buf.remaining() < len {
         return Err(Error::UnexpectedEnd);
     }
+    if flags & 1 == 1 {
+        // The Huffman decoder addresses the bits of its input with 32 bit integers
+        let _bits: u32 = len.saturating_mul(8).try_into()?;
+    }
 
     let payload = buf.copy_to_bytes(len);
     let value = if flags & 1 == 0 {
